@@ -4,6 +4,8 @@ package c12
 import (
 	"errors"
 	"fmt"
+	"os"
+	"strconv"
 	"testing"
 
 	sentinel "github.com/alibaba/sentinel-golang/api"
@@ -416,7 +418,15 @@ func TestSystematicSchedules(t *testing.T) {
 	}
 	total := 0
 	progs := basePrograms()
+	shard, nshards := 0, 1
+	if v, err := strconv.Atoi(os.Getenv("VERIF_NSHARDS")); err == nil && v > 1 {
+		nshards = v
+		shard, _ = strconv.Atoi(os.Getenv("VERIF_SHARD"))
+	}
 	for pi, p := range progs {
+		if pi%nshards != shard {
+			continue // the enumeration is split over processes by program index
+		}
 		ex := &sched.Explorer{MaxPreempt: maxPre}
 		for {
 			var verdict string
